@@ -12,21 +12,24 @@
 (*   Py*     sdk/python/arvados/_ranges.py first_block +                   *)
 (*           locators_and_ranges; _normalize_stream.escape                 *)
 (*                                                                         *)
-(* A behaviour has length one: Init ranges over the bounded space of       *)
-(* manifests and the invariants say that each model algorithm computes     *)
-(* what ManifestContract demands (refinement of a one-step contract),      *)
-(* EXCEPT in the two named classes where the faithful model contains a     *)
-(* genuine defect of the code (DESIGN.md 3, point 2):                      *)
+(* A behaviour only builds the input: it ranges over the bounded space of  *)
+(* manifests (one stream opened and filled per two steps) and the          *)
+(* invariants say that each model algorithm computes what ManifestContract *)
+(* demands (refinement of a one-step contract), at token level and at file *)
+(* level (every sub-range read), EXCEPT in the named classes where the     *)
+(* faithful model contains a genuine defect of the code (DESIGN.md 3,      *)
+(* point 2):                                                               *)
 (*   KF_C10_1  ZStart(s,t): a non-empty token that starts at the stream    *)
 (*             offset of a zero-length block lying before the data block   *)
 (*             that holds that offset.  GoMan: firstBlock may return -1 -> *)
 (*             panic; Py: first_block may return None -> empty result.     *)
-(*             Py, file level: ZSpan(s,t), a token COVERING such an offset   *)
-(*             leaves a zero-size range in the file's segment list and a     *)
-(*             read starting there finds nothing (same first_block).         *)
-(*   KF_C10_3  ZSeg(s,t): an EMPTY token positioned strictly inside a block. *)
-(*             GoFs: loadManifest appends a zero-length storedSegment, and a *)
-(*             positioned read (Seek+Read) that lands on it returns io.EOF.  *)
+(*             Py, file level: ZSpan(s,t), a token COVERING such an offset *)
+(*             leaves a zero-size range in the file's segment list and a   *)
+(*             read starting there finds nothing (same first_block).       *)
+(*   KF_C10_3  ZSeg(s,t): an EMPTY token positioned strictly inside a      *)
+(*             block.  GoFs: loadManifest appends a zero-length            *)
+(*             storedSegment, and a positioned read (Seek+Read) that lands *)
+(*             on it returns io.EOF.                                       *)
 (*   KF_C10_2  BsOct(n): an unescaped name with a backslash followed by    *)
 (*             three octal digits (<= \377).  GoManEscape leaves the       *)
 (*             backslash alone, so the name reads back differently.        *)
